@@ -12,19 +12,19 @@ package prog
 type TKind int
 
 const (
-	KNamedInt TKind = iota // type Tn uint64
-	KStruct                // type Tn struct{ V uint64; S string }
-	KPtr                   // *Tns  (type Tns struct{ V uint64 })
-	KSlice                 // []Tne (type Tne uint64)
-	KMap                   // map[string]Tne
-	KGeneric               // G[Tne]  (type G[X any] struct{ V uint64; X X })
-	KNamedSlice            // type Tn []uint64
-	KU64                   // uint64    (at most one per flow)
-	KI64                   // int64
-	KStr                   // string
-	KArr                   // [2]uint64
-	KExt                   // hb.Xn: declared in a package the file does not import
-	KExtPtr                // *hb.Xn
+	KNamedInt   TKind = iota // type Tn uint64
+	KStruct                  // type Tn struct{ V uint64; S string }
+	KPtr                     // *Tns  (type Tns struct{ V uint64 })
+	KSlice                   // []Tne (type Tne uint64)
+	KMap                     // map[string]Tne
+	KGeneric                 // G[Tne]  (type G[X any] struct{ V uint64; X X })
+	KNamedSlice              // type Tn []uint64
+	KU64                     // uint64    (at most one per flow)
+	KI64                     // int64
+	KStr                     // string
+	KArr                     // [2]uint64
+	KExt                     // hb.Xn: declared in a package the file does not import
+	KExtPtr                  // *hb.Xn
 	numKinds
 )
 
@@ -76,14 +76,14 @@ type Flow struct {
 
 // Coll is a Slice or Map of a Parallel.
 type Coll struct {
-	IsMap    bool `json:"is_map,omitempty"`
-	Fn       Fn   `json:"fn"`
-	HasIndex bool `json:"has_index,omitempty"` // slices
-	End      *Fn  `json:"end,omitempty"`
-	Named    bool `json:"named,omitempty"`    // named slice/map type
+	IsMap    bool  `json:"is_map,omitempty"`
+	Fn       Fn    `json:"fn"`
+	HasIndex bool  `json:"has_index,omitempty"` // slices
+	End      *Fn   `json:"end,omitempty"`
+	Named    bool  `json:"named,omitempty"` // named slice/map type
 	ElemKind TKind `json:"elem_kind"`
-	IntKey   bool `json:"int_key,omitempty"`  // maps: int keys instead of string
-	Slot     int  `json:"slot"`               // which scenario collection
+	IntKey   bool  `json:"int_key,omitempty"` // maps: int keys instead of string
+	Slot     int   `json:"slot"`              // which scenario collection
 }
 
 // PItem is one option of a Parallel that carries functions.
@@ -110,16 +110,16 @@ type Program struct {
 	Types    []TKind `json:"types"` // index = type id
 	Flow     *Flow   `json:"flow,omitempty"`
 	Par      *Par    `json:"par,omitempty"`
-	Wrap     bool    `json:"wrap,omitempty"`     // argument expressions wrapped in rt.A
-	Generic  bool    `json:"generic,omitempty"`  // directive inside a generic function
+	Wrap     bool    `json:"wrap,omitempty"`    // argument expressions wrapped in rt.A
+	Generic  bool    `json:"generic,omitempty"` // directive inside a generic function
 	InMethod bool    `json:"in_method,omitempty"`
 	// Shadow: user variables named like identifiers of the generated code hold
 	// the Params values (and other argument values) of the directive.
-	Shadow bool `json:"shadow,omitempty"`
-	Features []string `json:"features,omitempty"`
-	NumFns   int     `json:"num_fns"`
-	NumSites int     `json:"num_sites"` // rt.A sites
-	AutoInstrument bool `json:"auto_instrument,omitempty"`
+	Shadow         bool     `json:"shadow,omitempty"`
+	Features       []string `json:"features,omitempty"`
+	NumFns         int      `json:"num_fns"`
+	NumSites       int      `json:"num_sites"` // rt.A sites
+	AutoInstrument bool     `json:"auto_instrument,omitempty"`
 	// ConcurrentOK: every function can find its execution without a global.
 	ConcurrentOK bool `json:"concurrent_ok"`
 }
